@@ -1,8 +1,7 @@
 (* driver.ml -- runs the EXTRACTED float model (model.ml, from coq/Extract.v) on the case files the
    C++ harness also consumes and prints the same canonical trace lines (floats as their 64-bit
-   patterns).  Hand-written glue, part of the trusted base: token parsing, nat/Z conversion,
-   mt19937 + libstdc++'s uniform_real_distribution<double> (the draw stream is an INPUT of the
-   model), `log`. *)
+   patterns).  Hand-written glue, part of the trusted base: token parsing, nat/Z conversion, `log`.
+   (The mt19937 / uniform_real_distribution<double> stream is part of the Coq model: Mt19937.v.) *)
 open Model
 
 (* ---------- conversions ---------- *)
@@ -19,38 +18,7 @@ let hx (x : Float64.t) =
 let hxs l = String.concat " " (List.map hx l)
 let ints l = String.concat " " (List.map (fun n -> string_of_int (int_of_nat n)) l)
 
-(* ---------- mt19937 + uniform_real_distribution<double> as in libstdc++ ---------- *)
-let mt_stream (seed : int) : unit -> float =
-  let n = 624 and m = 397 in
-  let mt = Array.make n 0 in
-  let mask32 = 0xFFFFFFFF in
-  mt.(0) <- seed land mask32;
-  for i = 1 to n - 1 do
-    mt.(i) <- (1812433253 * (mt.(i-1) lxor (mt.(i-1) lsr 30)) + i) land mask32
-  done;
-  let idx = ref n in
-  let next32 () =
-    if !idx >= n then begin
-      for k = 0 to n - 1 do
-        let y = (mt.(k) land 0x80000000) lor (mt.((k+1) mod n) land 0x7fffffff) in
-        let v = mt.((k + m) mod n) lxor (y lsr 1) in
-        mt.(k) <- if y land 1 <> 0 then v lxor 0x9908b0df else v
-      done;
-      idx := 0
-    end;
-    let y = mt.(!idx) in incr idx;
-    let y = y lxor (y lsr 11) in
-    let y = y lxor ((y lsl 7) land 0x9d2c5680) in
-    let y = y lxor ((y lsl 15) land 0xefc60000) in
-    let y = y lxor (y lsr 18) in
-    y land mask32 in
-  fun () ->
-    (* generate_canonical<double,53>: two 32-bit draws, sum = x1 + x2*2^32, / 2^64 *)
-    let x1 = float_of_int (next32 ()) in
-    let x2 = float_of_int (next32 ()) in
-    let sum = x1 +. x2 *. 4294967296.0 in
-    let r = sum /. 18446744073709551616.0 in
-    if r >= 1.0 then Float.pred 1.0 else r
+(* the mt19937 / uniform_real_distribution<double> stream is the MODEL's (coq/Mt19937.v, extracted): mt_draws seed n *)
 
 (* ---------- tokens ---------- *)
 let toks : string array ref = ref [||]
@@ -166,16 +134,11 @@ let do_e2e () =
   let ovr rr it x =
     let rr = int_of_nat rr and j = int_of_nat it / 10 in
     if rr < Array.length script && j < Array.length script.(rr) then script.(rr).(j) else x in
-  (* enough draws for r realizations *)
-  let nv = List.length (List.sort_uniq compare (starts @ ends)) in
-  let kmax = List.length aff0 + 2 in
-  let ndraw = max 0 r * (List.length aff0 + 2 * nv * kmax + 16) in
-  let gen = mt_stream (seed land 0xFFFFFFFF) in
-  let stream = List.init (min ndraw 2000000) (fun _ -> f64 (gen ())) in
+  (* the model's library call as a function of the seed: the first draws_needed draws of mt_draws seed (coq/SeededModel.v) *)
   let call f = f ar String.equal countw ovr directed assort from_init starts ends weights
                  (nat_of_int r) (nat_of_int maxit) (nat_of_int nconv) (nat_of_int u_rows) (nat_of_int u_cols)
-                 u0 v0 aff0 stream in
-  (match call factorize with
+                 u0 v0 aff0 (z_of_int seed) in
+  (match call factorize_seeded with
    | Error c ->
        pr "%s status ERR %d\n" id (int_of_nat c);
        pr "%s labels %s\n" id (String.concat " " labels0);
@@ -192,7 +155,7 @@ let do_e2e () =
        pr "%s aff %d : %s\n" id (List.length res.r_aff) (hxs res.r_aff);
        pr "%s rep %d : %s\n" id (List.length res.r_rep)
          (String.concat " " (List.map (fun ((it, rs), l2) -> Printf.sprintf "%d %s %s" (int_of_nat it) (reason_name rs) (hx l2)) res.r_rep));
-       let sts = call factorize_starts in
+       let sts = call factorize_starts_seeded in
        List.iteri (fun i ((su, sv), sw) ->
          pr "%s start %d u : %s\n" id i (hxs (List.concat su));
          if directed then pr "%s start %d v : %s\n" id i (hxs (List.concat sv));
@@ -276,12 +239,11 @@ let do_waff () =
     pr "%s line %d :\n" id !ln; incr ln
   done
 
-(* ---------- RNG: the driver's mt19937/uniform stream (an input of the model) ---------- *)
+(* ---------- RNG: the model's mt19937/uniform stream (Mt19937.mt_draws) ---------- *)
 let do_rng () =
   let id = "R " ^ tok () in
   let seed = int () in let n = int () in
-  let g = mt_stream (seed land 0xFFFFFFFF) in
-  let l = List.init n (fun _ -> f64 (g ())) in
+  let l = mt_draws (z_of_int seed) (nat_of_int n) in
   pr "%s draws %s\n" id (hxs l);
   pr "%s std %s\n" id (hxs l)
 
